@@ -31,7 +31,7 @@ func init() {
 }
 
 type c09Job struct {
-	Kind string `json:"kind"` // corpus | bytes | ast | model | cycle
+	Kind string `json:"kind"` // corpus | bytes | ast | values | model | cycle
 	Idx  int    `json:"idx"`
 	Seed uint64 `json:"seed"`
 }
@@ -47,19 +47,22 @@ func c09Jobs(tier string, seed uint64, n int) []c09Job {
 	for i := range c09Corpus() {
 		jobs = append(jobs, c09Job{"corpus", i, seed})
 	}
-	nb, na, nm, nc := n*46/100, n*36/100, n*2/100, n*4/100
+	nb, na, nm, nc, nv := n*40/100, n*30/100, n*2/100, n*4/100, n*12/100
 	if tier == "thorough" {
 		nm, nc = 800, 2000
 	}
 	// the model / cycle cases carry whole schemas and documents into Coq: spread them evenly
 	// over the cheap ones so that every Coq shard gets its share
-	light := make([]c09Job, 0, nb+na)
-	for i := 0; i < nb || i < na; i++ {
+	light := make([]c09Job, 0, nb+na+nv)
+	for i := 0; i < nb || i < na || i < nv; i++ {
 		if i < nb {
 			light = append(light, c09Job{"bytes", i, seed})
 		}
 		if i < na {
 			light = append(light, c09Job{"ast", i, seed})
+		}
+		if i < nv {
+			light = append(light, c09Job{"values", i, seed})
 		}
 	}
 	heavy := make([]c09Job, 0, nm+nc)
@@ -452,6 +455,8 @@ func c09MakeInput(j c09Job) *c09Input {
 		return c09BytesInput(NewRng(j.Seed^0x0909, uint64(j.Idx)))
 	case "ast":
 		return c09AstInput(NewRng(j.Seed^0x09a5, uint64(j.Idx)))
+	case "values":
+		return c09ValuesInput(j)
 	case "model":
 		return &c09Input{Entry: "model", Schema: "gen", Note: fmt.Sprintf("generated valid request %d over a generated schema", j.Idx)}
 	case "cycle":
@@ -488,6 +493,8 @@ func c09RunInput(j c09Job, in *c09Input) Case {
 		o = c09ModelJob(j)
 	case in.Entry == "cycle":
 		o = c09CycleJob(j, in)
+	case j.Kind == "values":
+		o = c09ValuesJob(j, in)
 	default:
 		o = c09Call(in)
 	}
